@@ -90,7 +90,6 @@ func (c09) Run(e *Env) {
 	// Everything is drawn here, before the first flush; the backend only looks the tables up.
 	stallClass := e.Chance(1, 5)
 	var stallSync, stallCb [64]time.Duration
-	var stallWorker [64]int
 	var stallOn atomic.Bool
 	if stallClass {
 		for i := range stallSync {
@@ -101,7 +100,6 @@ func (c09) Run(e *Env) {
 			switch e.Weighted("c09stall", []int{5, 2, 2}) {
 			case 1:
 				stallSync[i] = d
-				stallWorker[i] = e.Draw(cfg.Workers+1) - 1 // -1: every shard
 			case 2:
 				stallCb[i] = d
 			}
@@ -113,7 +111,9 @@ func (c09) Run(e *Env) {
 			if !stallOn.Load() || fl >= len(stallSync) {
 				return 0, 0
 			}
-			if stallSync[fl] > 0 && (stallWorker[fl] < 0 || stallWorker[fl] == callIdx%workers) {
+			// every shard of the flush is held: which shard makes which call of a flush is decided by the
+			// Go scheduler within one instant, so holding "the k-th call" would not replay
+			if stallSync[fl] > 0 {
 				e.Fault("backend-stalls-shard-before-reset")
 				return stallSync[fl], 0
 			}
@@ -342,10 +342,10 @@ func (c09) Run(e *Env) {
 	}
 	// let everything with a finite expiry run out: enough flushes to pass the largest interval
 	if stallClass {
-		for be.Stalling() > 0 {
-			time.Sleep(50 * time.Millisecond)
-		}
 		e.Settle()
+		for be.Stalling() > 0 {
+			e.Advance(50 * time.Millisecond) // settles before the counter is read again: a stall may end at this very instant
+		}
 		for f := fc.next(); f != nil; f = fc.next() {
 			checkFlush(f)
 		}
